@@ -404,3 +404,147 @@ from pyvc.runner import units_of  # noqa: E402
 for _u in list(units_of("C13")):
     if _u.name.startswith("BOUNDS"):
         register(Unit(P, "MISFILTER/" + _u.name, _u.harness, functions=_u.functions, replay=_replay_c11, reg_factory=_u.reg_factory or _c13.registry))
+
+
+# ----------------------------------------------------------------------------------------------- write_data_file
+def h_write_data_file(h: H):
+    """WRITE-EXACT: write_data_file validates the records before anything is created; converts with the Arrow schema of THE
+    given schema; hands the writer every record exactly once, in order (loop invariant over batches of 1000, unbounded record
+    count); computes statistics from the same records; returns a DataFile for the given path whose row count is the writer's and
+    whose checksum / size are taken from the file just written."""
+    from pyvc.values import SSeq
+    c = h.ctx
+    st = Store(h)
+    st.install(h.reg)
+    recs = SSeq("int", c.fresh("records", z3.SeqSort(INT)))
+    schema = SObj("Schema", {"schema_id": 1, "fields": PList([])}, label="schema")
+    dfm = SObj("DataFileManager", {"storage": st.obj, "_pyarrow_fs": None}, label="dfm")
+    fpath = h.str("file_path")
+    log = []
+    arrow_schema = TheoryObj("arrowschema")
+    reject = c.flip("records-rejected")
+
+    def validate(I, fv, a, k):
+        log.append(("validate", a[1], a[2]))
+        if reject:
+            raise PyRaise(SExc("ValueError", origin="strict validation", fields={"reject": True}))
+    h.reg.contracts[f"{DO}:DataFileManager.validate_records_strict"] = validate
+    h.reg.contracts[f"{DO}:DataFileManager.create_arrow_schema"] = lambda I, fv, a, k: log.append(("arrow_schema", a[-1])) or arrow_schema
+    apath = SStr(c.fresh_str("arrow_path"))
+    h.reg.contracts[f"{DO}:DataFileManager._get_arrow_path"] = lambda I, fv, a, k: log.append(("arrow_path", a[-1])) or apath
+    table = TheoryObj("arrowtable")
+    h.reg.modfuncs["pyarrow.Table.from_pylist"] = lambda I, a, k: log.append(("from_pylist", a[0], k.get("schema"))) or table
+    h.reg.contracts[f"{DO}:DataFileManager._compute_column_bounds"] = lambda I, fv, a, k: log.append(("bounds", a[1], a[2])) or (PDict({}), PDict({}))
+    written = {"z": z3.Empty(z3.SeqSort(INT)), "open": None}
+    rowcount = SInt(c.fresh_int("writer_row_count"))
+
+    def writer_ctor(I, cv, a, k):
+        log.append(("writer", a[0], a[2]))
+        w = TheoryObj("writer", fields={"row_count": rowcount})
+        return w
+    h.reg.class_ctor["DataFileWriter"] = writer_ctor
+    T = h.reg.theory_methods
+    T[("writer", "__enter__")] = lambda I, o, a, k: o
+    T[("writer", "__exit__")] = lambda I, o, a, k: log.append(("writer-closed",)) and None
+
+    def write_records(I, o, a, k):
+        b = a[0]
+        written["z"] = z3.Concat(written["z"], b.z) if isinstance(b, SSeq) else written["z"]
+        log.append(("write_records", b))
+    T[("writer", "write_records")] = write_records
+    h.reg.theory_attrs[("writer", "row_count")] = lambda I, o: rowcount
+    h.reg.modfuncs["os.path.getsize"] = lambda I, a, k: log.append(("getsize", a[0])) or SInt(I.ctx.fresh_int("size"))
+    cks = SStr(c.fresh_str("sha"))
+    h.reg.contracts["integrity:IntegrityChecker.compute_file_checksum"] = lambda I, fv, a, k: log.append(("checksum", a[-1])) or cks
+
+    def inv(I, env, it):
+        i = it["i"]
+        n = z3.Length(recs.z)
+        upto = z3.If(i < n, i, n)
+        return [("WRITE-EXACT:inv:written-so-far-is-exactly-the-first-i-records", written["z"] == z3.Extract(recs.z, 0, upto))]
+
+    def havoc(I, env, it):
+        written["z"] = I.ctx.fresh("written", z3.SeqSort(INT))
+    h.reg.loops[f"{DO}:DataFileManager.write_data_file"] = {"*": LoopSpec(invariant=inv, havoc=havoc, name="batches", skip=["batch_records", "i"])}
+    out, val = h.run(f"{DO}:DataFileManager.write_data_file", [dfm, fpath, recs, schema])
+    names = [x[0] for x in log]
+    if reject and z3.is_true(z3.simplify(z3.Length(recs.z) > 0)) is False:
+        pass
+    if out == "raise":
+        h.ensure("WRITE-EXACT:a-rejected-batch-creates-no-writer(no-file)", bool(val.fields.get("reject")) and "writer" not in names, detail=repr(val))
+        return
+    h.ensure("WRITE-EXACT:records-validated-against-THE-given-schema-before-the-writer-exists",
+             z3.Or(z3.Length(recs.z) == 0, z3.BoolVal("validate" in names and names.index("validate") < names.index("writer") and log[names.index("validate")][1] is recs
+                                                    and log[names.index("validate")][2] is schema)) if "writer" in names else z3.BoolVal(False))
+    h.ensure("WRITE-EXACT:arrow-schema-built-from-THE-given-schema-and-used-by-the-writer",
+             ("arrow_schema", schema) in log and any(x[0] == "writer" and x[2] is arrow_schema and x[1] is apath for x in log) and ("arrow_path", fpath) in log)
+    h.ensure("WRITE-EXACT:every-record-handed-to-the-writer-exactly-once-in-order", written["z"] == recs.z)
+    fp = [x for x in log if x[0] == "from_pylist"]
+    h.ensure("WRITE-EXACT:statistics-computed-from-the-same-records-and-schema",
+             z3.Or(z3.Length(recs.z) == 0, z3.BoolVal(len(fp) == 1 and fp[0][1] is recs and fp[0][2] is arrow_schema and ("bounds", table, schema) in log)))
+    ok = isinstance(val, SObj) and val.cls == "DataFile"
+    h.ensure("WRITE-EXACT:returns-a-DataFile-for-the-given-path-with-the-writer's-row-count-and-the-written-file's-checksum",
+             ok and val.fields.get("file_path") is fpath and val.fields.get("record_count") is rowcount and val.fields.get("checksum") is cks
+             and ("checksum", apath) in log and ("getsize", apath) in log and names.index("writer-closed") < names.index("checksum"))
+
+
+register(Unit(P, "WRITE-EXACT/write_data_file", h_write_data_file, functions=[f"{DO}:DataFileManager.write_data_file"], replay=_replay_c11))
+
+
+def h_writer_write_records(h: H):
+    """WRITE-EXACT (writer side): write_records opens the writer on first use, converts the batch with the WRITER'S schema, hands the
+    resulting table to the parquet writer once, and adds exactly its row count; an empty batch writes nothing."""
+    c = h.ctx
+    opened = []
+    pqw = TheoryObj("parquetwriter")
+    log = []
+    has_writer = c.flip("already-open")
+    sch = TheoryObj("arrowschema")
+    w = SObj("DataFileWriter", {"_writer": pqw if has_writer else None, "_schema": sch, "_row_count": SInt(c.fresh_int("row_count0")), "file_format": EnumVal("FileFormat", "PARQUET", "parquet")}, label="writer")
+    rc0 = w.fields["_row_count"].z
+
+    def open_(I, fv, a, k):
+        opened.append(1)
+        a[0].fields["_writer"] = pqw
+    h.reg.contracts[f"{DO}:DataFileWriter.open"] = open_
+    empty = c.flip("empty-batch")
+    recs = PList([]) if empty else TheoryObj("symiter", fields={"mk": lambda I: PDict({}), "nonempty": z3.BoolVal(True)})
+    table = TheoryObj("arrowtable2", fields={"__pyclass__": "pyarrow.Table"})
+    cur = {}
+
+    def mk_batch(I):
+        b = TheoryObj("recordbatch", fields={"num_rows": SInt(I.ctx.fresh_int("batch_rows"))})
+        cur["b"] = b
+        return b
+    h.reg.theory_attrs[("recordbatch", "num_rows")] = lambda I, o: o.fields["num_rows"]
+    h.reg.theory_methods[("arrowtable2", "to_batches")] = lambda I, o, a, k: log.append(("to_batches",)) or TheoryObj("symiter", fields={"mk": mk_batch})
+    h.reg.modfuncs["pyarrow.Table.from_pylist"] = lambda I, a, k: log.append(("from_pylist", a[0], k.get("schema"))) or table
+    wb = []
+    h.reg.theory_methods[("parquetwriter", "write_batch")] = lambda I, o, a, k: wb.append(a[0]) and None
+
+    def inv(I, env, it):
+        if not it.get("after_body"):
+            return []
+        # T-arrow: to_batches() partitions the table's rows; per batch: written once, row count grows by its rows
+        return [("WRITE-EXACT:each-batch-of-the-table-is-written-exactly-once", z3.BoolVal(len(wb) == 1 and wb[0] is it["elem"])),
+                ("WRITE-EXACT:row-count-grows-by-the-rows-of-the-batch-written",
+                 pyops.int_z(w.fields["_row_count"]) == it["rc_before"] + it["elem"].fields["num_rows"].z)]
+
+    def havoc(I, env, it):
+        del wb[:]
+        w.fields["_row_count"] = SInt(I.ctx.fresh_int("row_count"))
+        it["rc_before"] = w.fields["_row_count"].z
+    h.reg.loops[f"{DO}:DataFileWriter.write_batch"] = {"*": LoopSpec(invariant=inv, havoc=havoc, name="batches", skip=["record_batch"])}
+    out, val = h.run(f"{DO}:DataFileWriter.write_records", [w, recs])
+    h.ensure("WRITE-EXACT:write_records-does-not-raise-by-itself", out == "ok", detail=repr(val) if out != "ok" else "")
+    if out != "ok":
+        return
+    h.ensure("WRITE-EXACT:writer-opened-iff-it-was-not-open", len(opened) == (0 if has_writer else 1))
+    if empty:
+        h.ensure("WRITE-EXACT:empty-batch-writes-nothing", not log and w.fields["_row_count"].z is rc0)
+        return
+    h.ensure("WRITE-EXACT:batch-converted-with-the-writer's-schema-and-all-its-record-batches-written",
+             log == [("from_pylist", recs, sch), ("to_batches",)])
+
+
+register(Unit(P, "WRITE-EXACT/DataFileWriter.write_records", h_writer_write_records, functions=[f"{DO}:DataFileWriter.write_records", f"{DO}:DataFileWriter.write_batch"], replay=_replay_c11))
